@@ -53,6 +53,7 @@ AuxInit == [dur |-> <<>>,       \* map id -> BOOLEAN: the disk image is known to
             since |-> <<>>,     \* map id -> <<number of updates since last decode, last updated key>>
             fault |-> FALSE,    \* a write fault (RLIMIT_FSIZE) is being injected
             design |-> TRUE,    \* advance the design layer on every update (off for long contract-only traces)
+            nf |-> 0,           \* verdicts in this history so far
             hist |-> 0]         \* history number (counts "reset" events)
 
 Init == /\ l = 0 /\ mem = <<>> /\ meta = <<>> /\ st = <<>> /\ last = <<>>
@@ -458,13 +459,16 @@ Next ==
             /\ skip' = TRUE /\ nfail' = nfail + 1
             /\ UNCHANGED <<mem, meta, st, last, aux>>
        ELSE LET r == Proc(e) IN
-            /\ mem' = r.mem /\ meta' = r.meta /\ st' = r.st /\ last' = r.last /\ aux' = r.aux
+            /\ mem' = r.mem /\ meta' = r.meta /\ st' = r.st /\ last' = r.last
+            /\ aux' = IF r.fails # {} /\ e.ev # "reset" THEN [r.aux EXCEPT !.nf = r.aux.nf + 1] ELSE r.aux
             /\ IF r.fails # {}
                THEN /\ PrintT(<<"VERDICT", ToJson([l |-> l + 1, i |-> Fld(e, "i", -1), hist |-> aux.hist, conj |-> r.fails,
                                                    ev |-> e.ev, outcome |-> Fld(e, "outcome", "-"), msg |-> Fld(e, "msg", "-"),
                                                    m |-> Fld(e, "m", "-"), kt |-> Fld(e, "kt", "-"),
                                                    mkt |-> IF Fld(e, "m", "-") \in DOMAIN meta THEN meta[e.m].kt ELSE "-"])>>)
-                    /\ skip' = TRUE /\ nfail' = nfail + 1
+                    \* the contract state does not depend on the implementation, so the history goes on
+                    \* (the design state is re-based on the logged one); a flood is cut after 25 verdicts
+                    /\ skip' = (aux.nf >= 24) /\ nfail' = nfail + 1
                ELSE skip' = FALSE /\ nfail' = nfail
             /\ IF r.drift = "" THEN TRUE
                ELSE PrintT(<<"SPEC-DRIFT", ToJson([l |-> l + 1, i |-> Fld(e, "i", -1), hist |-> aux.hist, what |-> r.drift])>>)
